@@ -108,6 +108,16 @@ def build_world(seed=WORLD_SEED):
     w['loc_stats'] = ['mean', 'median', 'mode']
     w['spread_stats'] = ['stdev', 'mad', 'iqr', 'bivar', 'sem', 'mse']
     w['interval_stats'] = ['ci', 'pi']
+    # --- heterozygous variants (VariantArray) over the same bins: one SNV in every third bin
+    from cnvlib.vary import VariantArray as VA
+    vr = []
+    for i, r in enumerate(d.itertuples(index=False)):
+        if i % 3 == 0:
+            f = rng.choice([0.25, 0.3, 0.4, 0.5, 0.6, 0.75])
+            dp = rng.choice([30, 40, 60])
+            vr.append((r.chromosome, int(r.start) + 5, int(r.start) + 6, 'A', 'G', False, 0.5, dp, int(round(f * dp)), f))
+    w['varr'] = VA(pd.DataFrame(vr, columns=['chromosome', 'start', 'end', 'ref', 'alt', 'somatic', 'zygosity', 'depth',
+                                             'alt_count', 'alt_freq']), {'sample_id': 'S1'})
     w['chrom_sizes'] = {'chr1': 9000000, 'chr2': 5000000, 'chrX': 3000000}
     return w
 
@@ -157,6 +167,10 @@ def make_ops():
         'export_vcf': lambda w, p: list(export.export_vcf(w['cns'], 2, False, None, True))[1],
         'export_theta': lambda w, p: export.export_theta(w['cns'], w['ref']),
         'export_nexus': lambda w, p: export.export_nexus_basic(w['cnr']),
+        'export_nexus_ogt_minweight': lambda w, p: export.export_nexus_ogt(w['cnr'], w['varr'], 0.8),
+        'call_variants_purity': lambda w, p: call.do_call(w['cns'], w['varr'], method='threshold', purity=0.7),
+        'baf_by_ranges': lambda w, p: w['varr'].baf_by_ranges(w['cns'], above_half=True),
+        'segment_none_variants': lambda w, p: segmentation.do_segmentation(w['cnr'], 'none', variants=w['varr'], processes=p),
         'center_all_copy': center,
         'merge': lambda w, p: w['ga_a'].merge(),
         'flatten': lambda w, p: w['ga_a'].flatten(),
